@@ -1,4 +1,211 @@
 /- helper lemmas for C20 -/
 import MelModel.Chain
 namespace Mel
+
+namespace AList
+variable {κ ν : Type} [DecidableEq κ]
+
+theorem get_cons (k' : κ) (v : ν) (rest : AList κ ν) (k : κ) :
+    get ((k', v) :: rest) k = if k' = k then some v else get rest k := by
+  simp [get]
+
+theorem del_cons (k' : κ) (v : ν) (rest : AList κ ν) (k : κ) :
+    del ((k', v) :: rest) k = if k' = k then del rest k else (k', v) :: del rest k := by
+  by_cases h : k' = k <;> simp [del, h]
+
+theorem mem_del {m : AList κ ν} {k : κ} {e : κ × ν} : e ∈ del m k ↔ e ∈ m ∧ e.1 ≠ k := by
+  simp [del]
+
+theorem get_del_self (m : AList κ ν) (k : κ) : get (del m k) k = none := by
+  induction m with
+  | nil => rfl
+  | cons e rest ih =>
+    obtain ⟨k', v⟩ := e
+    rw [del_cons]
+    by_cases h : k' = k
+    · simp [h, ih]
+    · simp [h, get_cons, ih]
+
+theorem get_del_ne (m : AList κ ν) {k k' : κ} (hne : k' ≠ k) : get (del m k) k' = get m k' := by
+  induction m with
+  | nil => rfl
+  | cons e rest ih =>
+    obtain ⟨k₀, v⟩ := e
+    rw [del_cons]
+    by_cases h : k₀ = k
+    · have : k₀ ≠ k' := by intro h'; exact hne (h' ▸ h)
+      simp [h, get_cons, ih]
+      intro h2; exact absurd (h2 ▸ rfl) hne
+    · simp [h, get_cons, ih]
+
+theorem get_set_self (m : AList κ ν) (k : κ) (v : ν) : get (set m k v) k = some v := by
+  simp [set, get_cons]
+
+theorem get_set_ne (m : AList κ ν) {k k' : κ} (v : ν) (hne : k' ≠ k) :
+    get (set m k v) k' = get m k' := by
+  have : k ≠ k' := fun h => hne h.symm
+  simp [set, get_cons, this, get_del_ne m hne]
+
+theorem get_eq_none_iff_not_mem_keys (m : AList κ ν) (k : κ) : get m k = none ↔ k ∉ keys m := by
+  induction m with
+  | nil => simp [get, keys]
+  | cons e rest ih =>
+    obtain ⟨k', v⟩ := e
+    by_cases h : k' = k
+    · simp [get_cons, keys, h]
+    · have h' : ¬ k = k' := fun h2 => h h2.symm
+      simp only [get_cons, h, if_false, ih]
+      simp [keys, h']
+
+theorem mem_of_get_eq_some {m : AList κ ν} {k : κ} {v : ν} (h : get m k = some v) : (k, v) ∈ m := by
+  induction m with
+  | nil => simp [get] at h
+  | cons e rest ih =>
+    obtain ⟨k', v'⟩ := e
+    rw [get_cons] at h
+    by_cases hk : k' = k
+    · simp [hk] at h; simp [hk, h]
+    · simp [hk] at h; exact List.mem_cons_of_mem _ (ih h)
+
+omit [DecidableEq κ] in
+theorem mem_keys_of_mem {m : AList κ ν} {k : κ} {v : ν} (h : (k, v) ∈ m) : k ∈ keys m := by
+  simp only [keys, List.mem_map]; exact ⟨(k, v), h, rfl⟩
+
+theorem get_eq_some_of_mem {m : AList κ ν} {k : κ} {v : ν} (hn : (keys m).Nodup) (h : (k, v) ∈ m) :
+    get m k = some v := by
+  induction m with
+  | nil => simp at h
+  | cons e rest ih =>
+    obtain ⟨k', v'⟩ := e
+    simp only [keys, List.map_cons, List.nodup_cons] at hn
+    rw [get_cons]
+    rcases List.mem_cons.mp h with h | h
+    · simp at h; simp [h.1, h.2]
+    · have hk : k ∈ keys rest := mem_keys_of_mem h
+      have : k' ≠ k := by intro h'; exact hn.1 (h' ▸ hk)
+      simp [this]; exact ih hn.2 h
+
+theorem keys_del_sublist (m : AList κ ν) (k : κ) : (keys (del m k)).Sublist (keys m) :=
+  List.Sublist.map _ List.filter_sublist
+
+theorem keys_nodup_del {m : AList κ ν} (k : κ) (h : (keys m).Nodup) : (keys (del m k)).Nodup :=
+  List.Nodup.sublist (keys_del_sublist m k) h
+
+theorem not_mem_keys_del (m : AList κ ν) (k : κ) : k ∉ keys (del m k) :=
+  (get_eq_none_iff_not_mem_keys _ _).mp (get_del_self m k)
+
+theorem keys_nodup_set {m : AList κ ν} (k : κ) (v : ν) (h : (keys m).Nodup) :
+    (keys (set m k v)).Nodup := by
+  simp only [set, keys, List.map_cons, List.nodup_cons]
+  exact ⟨not_mem_keys_del m k, keys_nodup_del k h⟩
+
+theorem del_eq_self_of_get_none {m : AList κ ν} {k : κ} (h : get m k = none) : del m k = m := by
+  induction m with
+  | nil => rfl
+  | cons e rest ih =>
+    obtain ⟨k', v⟩ := e
+    rw [get_cons] at h
+    by_cases hk : k' = k
+    · simp [hk] at h
+    · simp [hk] at h; rw [del_cons]; simp [hk, ih h]
+
+/-- deleting a present key removes exactly one entry from every filter -/
+theorem filter_del_length {m : AList κ ν} {k : κ} {old : ν} (p : κ × ν → Bool)
+    (hn : (keys m).Nodup) (h : get m k = some old) :
+    ((del m k).filter p).length + (if p (k, old) then 1 else 0) = (m.filter p).length := by
+  induction m with
+  | nil => simp [get] at h
+  | cons e rest ih =>
+    obtain ⟨k', v⟩ := e
+    simp only [keys, List.map_cons, List.nodup_cons] at hn
+    rw [get_cons] at h
+    rw [del_cons]
+    by_cases hk : k' = k
+    · subst hk
+      simp at h; subst h
+      have hnone : get rest k' = none := (get_eq_none_iff_not_mem_keys _ _).mpr hn.1
+      simp only [if_true, del_eq_self_of_get_none hnone, List.filter_cons]
+      split <;> simp
+    · simp only [hk, if_false] at h ⊢
+      have := ih hn.2 h
+      simp only [List.filter_cons]
+      by_cases hp : p (k', v) <;> simp [hp] <;> omega
+
+/-- with unique keys, filtered lengths only depend on the lookup function -/
+theorem filter_length_congr (p : κ × ν → Bool) :
+    ∀ (m₁ m₂ : AList κ ν), (keys m₁).Nodup → (keys m₂).Nodup → (∀ k, get m₁ k = get m₂ k) →
+      (m₁.filter p).length = (m₂.filter p).length := by
+  intro m₁
+  induction m₁ with
+  | nil =>
+    intro m₂ _ _ hg
+    cases m₂ with
+    | nil => rfl
+    | cons e rest =>
+      obtain ⟨k, v⟩ := e
+      have := hg k
+      simp [get] at this
+  | cons e rest ih =>
+    obtain ⟨k, v⟩ := e
+    intro m₂ h₁ h₂ hg
+    have hk : get m₂ k = some v := by rw [← hg k]; simp [get_cons]
+    simp only [keys, List.map_cons, List.nodup_cons] at h₁
+    have hrest : ∀ k', get rest k' = get (del m₂ k) k' := by
+      intro k'
+      by_cases hkk : k' = k
+      · subst hkk
+        rw [get_del_self]; exact (get_eq_none_iff_not_mem_keys _ _).mpr h₁.1
+      · rw [get_del_ne m₂ hkk, ← hg k', get_cons]
+        have : ¬ k = k' := fun h => hkk h.symm
+        simp [this]
+    have hih := ih (del m₂ k) h₁.2 (keys_nodup_del k h₂) hrest
+    have hdel := filter_del_length p h₂ hk
+    simp only [List.filter_cons]
+    split <;> simp_all <;> omega
+
+end AList
+
+/-- one step of the TIP-906 initialisation fold -/
+def tip906Step (acc : CoinMap) (e : CoinID × CoinDataHeight) : CoinMap :=
+  acc.insertCoinCount e.2.coinData.covhash (acc.coinCount e.2.coinData.covhash + 1)
+
+theorem tip906Step_eq (acc : CoinMap) (e : CoinID × CoinDataHeight) :
+    tip906Step acc e =
+      { acc with counts := acc.counts.set e.2.coinData.covhash (acc.coinCount e.2.coinData.covhash + 1) } := by
+  simp [tip906Step, CoinMap.insertCoinCount]
+
+/-- invariant of the TIP-906 fold over any list of coin entries: the coins are untouched, the count
+    keys stay unique, each count grows by the number of processed entries, no zero entry appears -/
+theorem tip906_fold_inv (l : List (CoinID × CoinDataHeight)) :
+    ∀ acc : CoinMap, (AList.keys acc.counts).Nodup → (∀ e ∈ acc.counts, e.2 ≠ 0) →
+      (l.foldl tip906Step acc).coins = acc.coins ∧
+      (AList.keys (l.foldl tip906Step acc).counts).Nodup ∧
+      (∀ a, (l.foldl tip906Step acc).coinCount a =
+        acc.coinCount a + (l.filter fun e => e.2.coinData.covhash = a).length) ∧
+      (∀ e ∈ (l.foldl tip906Step acc).counts, e.2 ≠ 0) := by
+  induction l with
+  | nil => intro acc hn hz; exact ⟨rfl, hn, by simp, hz⟩
+  | cons x rest ih =>
+    intro acc hn hz
+    have hn' : (AList.keys (tip906Step acc x).counts).Nodup := by
+      rw [tip906Step_eq]; exact AList.keys_nodup_set _ _ hn
+    have hz' : ∀ e ∈ (tip906Step acc x).counts, e.2 ≠ 0 := by
+      rw [tip906Step_eq]
+      intro e he
+      simp only [AList.set, List.mem_cons] at he
+      rcases he with he | he
+      · subst he; simp
+      · exact hz e (AList.mem_del.mp he).1
+    obtain ⟨i1, i2, i3, i4⟩ := ih (tip906Step acc x) hn' hz'
+    simp only [List.foldl_cons]
+    refine ⟨by rw [i1, tip906Step_eq], i2, ?_, i4⟩
+    intro a
+    rw [i3 a, tip906Step_eq]
+    simp only [CoinMap.coinCount, List.filter_cons]
+    by_cases ha : a = x.2.coinData.covhash
+    · subst ha
+      rw [AList.get_set_self]; simp; omega
+    · have ha' : ¬ x.2.coinData.covhash = a := fun h => ha h.symm
+      rw [AList.get_set_ne _ _ ha]; simp [ha']
+
 end Mel
